@@ -11,6 +11,10 @@ use std::sync::Mutex;
 use std::time::Instant;
 
 pub const DEFAULT_SEED: u64 = 20260926;
+/// The sets behind the "distinct" counts are bounded so that a thorough run of tens of millions of
+/// cases stays within a few GB: counts saturate at these values (reported in the evidence).
+pub const DISTINCT_CAP_PER_WORKER: usize = 1_000_000;
+pub const DISTINCT_CAP_TOTAL: usize = 8_000_000;
 
 #[derive(Clone, Copy, Debug, PartialEq, Eq, Serialize, Deserialize)]
 pub enum Tier {
@@ -211,11 +215,15 @@ impl Agg {
             let mut h = Fnv::default();
             h.u64(case_hash(case));
             h.u64(o.schedule_hash);
-            self.nontrivial.insert(h.0);
+            if self.nontrivial.len() < DISTINCT_CAP_PER_WORKER {
+                self.nontrivial.insert(h.0);
+            }
         }
-        self.schedules.insert(o.schedule_hash);
+        if self.schedules.len() < DISTINCT_CAP_PER_WORKER {
+            self.schedules.insert(o.schedule_hash);
+        }
         for s in &o.state_hashes {
-            if self.states.len() < 2_000_000 {
+            if self.states.len() < DISTINCT_CAP_PER_WORKER / 2 {
                 self.states.insert(*s);
             }
         }
@@ -251,9 +259,24 @@ impl Agg {
 
     fn merge(&mut self, o: Agg) {
         self.evaluations += o.evaluations;
-        self.nontrivial.extend(o.nontrivial);
-        self.schedules.extend(o.schedules);
-        self.states.extend(o.states);
+        for x in o.nontrivial {
+            if self.nontrivial.len() >= DISTINCT_CAP_TOTAL {
+                break;
+            }
+            self.nontrivial.insert(x);
+        }
+        for x in o.schedules {
+            if self.schedules.len() >= DISTINCT_CAP_TOTAL {
+                break;
+            }
+            self.schedules.insert(x);
+        }
+        for x in o.states {
+            if self.states.len() >= DISTINCT_CAP_TOTAL {
+                break;
+            }
+            self.states.insert(x);
+        }
         self.steps += o.steps;
         self.contested += o.contested;
         self.sim_time_ns += o.sim_time_ns;
@@ -462,6 +485,7 @@ pub fn run_batch_ev<E: Engine>(args: &BatchArgs) -> (i32, serde_json::Value) {
                 "simulated_time_ns": agg.sim_time_ns,
                 "simulated_time_note": "the shipped code reads no clock and sets no timer; simulated time advances only if a variant sleeps or uses timeouts, so reach is reported in logical steps",
                 "runs_per_hour": runs_per_hour.round(),
+                "distinct_counts_saturate_at": DISTINCT_CAP_TOTAL,
                 "distinct_schedules": agg.schedules.len(),
                 "distinct_abstract_states": agg.states.len(),
                 "scheduler_strategies": agg.strategies,
